@@ -174,6 +174,8 @@ def build_request(case, stack, app_options=None):
     server = tuple(case['server'])
     client = tuple(case['client']) if case.get('client') else None
     if stack == 'wsgi':
+        if case.get('wsgi_server_bracketed') and ':' in server[0]:
+            server = ('[%s]' % server[0], server[1])      # RFC 3875 form of an IPv6 SERVER_NAME
         env = W.make_environ('GET', case['path'], case['query'], headers=headers, scheme=case['scheme'],
                              server=server, client=client or ('0.0.0.0', 0), root_path=case['root_path'])
         if client is None:
@@ -264,7 +266,7 @@ _INT_MSG = re.compile(r"invalid literal for int\(\) with base 10: (.*)\Z", re.S)
 
 def classify(case, stack, key, reason, got):
     """Narrow classifiers for defects of the unchanged tree (proposed known_findings keys)."""
-    hdr = {n.lower(): v for n, v in case['headers']}
+    hdr, _ = M.combine_headers(case['headers'])
     if reason == 'other-exception' and got[1] == 'ValueError' and got[3].startswith('util/uri.py:parse_host:') \
             and _INT_MSG.match(got[2]):
         # falcon/util/uri.py parse_host(): int(port) on a port text that is not a decimal number, reached from
@@ -278,8 +280,8 @@ def classify(case, stack, key, reason, got):
         if types != types.lower():
             # re-run on the same header with lower-cased type/subtype: if falcon then agrees with the
             # reference, the only cause is case-sensitive type matching (falcon/util/mediatypes.py match_score)
-            lowered = ','.join(_lower_type(p) for p in ac.split(','))
-            c2 = dict(case, headers=[[n, (lowered if n.lower() == 'accept' else v)] for n, v in case['headers']])
+            c2 = dict(case, headers=[[n, (','.join(_lower_type(p) for p in v.split(',')) if n.lower() == 'accept' else v)]
+                                     for n, v in case['headers']])
             E2, _ = M.expectations(c2, stack)
             tab = dict(make_table(c2))
             if key in tab and key != 'accept' and judge(E2[key], read(new_request(c2, stack), tab[key])) is None:
@@ -344,7 +346,8 @@ def evaluate(case, stacks=STACKS):
             continue
         s1 = snapshot(reqA, table, o1)
         s2 = snapshot(reqA, table, o2)
-        s3 = snapshot(reqB, table, o3)
+        light = bool(case.get('light'))     # light: value/free/repeat monitors only (no fresh-object reads)
+        s3 = s1 if light else snapshot(reqB, table, o3)
         snaps[stack] = s1
         cnt('stack.' + stack)
         for k, fn in table:
@@ -369,6 +372,8 @@ def evaluate(case, stacks=STACKS):
             if not same(s1[k], s2[k]):
                 findings.append({'kind': 'repeat-access-differs', 'stack': stack, 'accessor': k,
                                  'got': list(s1[k]), 'second': list(s2[k]), 'known': None})
+            if light:
+                continue
             cnt('mon.fresh_other_order')
             if not same(s1[k], s3[k]):
                 findings.append({'kind': 'fresh-object-differs', 'stack': stack, 'accessor': k,
@@ -386,7 +391,7 @@ def evaluate(case, stacks=STACKS):
                 for f in pending:
                     f['known'] = K_ROUTE_CACHE
                     f['root'] = list(root)
-        for k in MEMOISED:
+        for k in ([] if light else MEMOISED):
             alone = read(request_from(built, stack), tab[k])
             cnt('mon.fresh_alone')
             if not same(alone, s1[k]) and judge(E[k], s1[k]) is None:
@@ -846,15 +851,23 @@ def base_case(rng=None):
 
 def finish_case(case, rng):
     """choose probes (cookie names, lookup names/casings) for a case whose headers are fixed."""
-    hdr = {n.lower(): v for n, v in case['headers']}
+    hdr, _ = M.combine_headers(case['headers'])
     probe = []
     for tok in hdr.get('cookie', '').split(';')[:6]:
         n = tok.partition('=')[0].strip()
         if n and n not in probe:
             probe.append(n)
     case['cookie_probe'] = probe[:3] + ['nope']
-    present = [n for n, _ in case['headers']]
-    rng.shuffle(present)
+    present = []
+    for n, _ in case['headers']:
+        if n not in present:
+            present.append(n)
+    if case.get('lookup_first'):
+        present.remove(case['lookup_first'])
+        rng.shuffle(present)
+        present.insert(0, case.pop('lookup_first'))
+    else:
+        rng.shuffle(present)
     look = []
     for n in present[:2] + ['X-Absent']:
         for st in (1, 2, 3):
@@ -872,7 +885,10 @@ def random_case(rng, p_mut=0.35):
     c = base_case()
     c['scheme'] = rng.choice(['http', 'https'])
     c['server'] = rng.choice([['falconframework.org', 80], ['falconframework.org', 443], ['localhost', 8000],
-                              ['10.0.0.5', 8080], ['api.internal.example', 443], ['srv', 80]])
+                              ['10.0.0.5', 8080], ['api.internal.example', 443], ['srv', 80], ['::1', 8000],
+                              ['2001:db8::8', 80], ['2001:db8::8', 443], ['::1', 8443]])
+    if rng.random() < 0.4:
+        c['wsgi_server_bracketed'] = True
     c['client'] = rng.choice([['10.1.2.3', 40000], ['192.0.2.43', 1], ['2001:db8::9', 5], ['127.0.0.1', 9], None,
                               [rng.choice(IPV4S), 7]])
     c['root_path'] = rng.choice(['', '', '/api', '/a/b'])
@@ -889,9 +905,32 @@ def random_case(rng, p_mut=0.35):
             v = g(rng)
             if rng.random() < p_mut:
                 v = mutate(rng, v)
-            c['headers'].append([name, v])
-    rng.shuffle(c['headers'])
+            if name.lower() in M.LIST_FIELDS and rng.random() < 0.3:
+                # list-based field sent on several field lines (RFC 9110 5.3)
+                lines = split_lines(v, rng)
+                if len(lines) > 1:
+                    c['lookup_first'] = name
+                for ln in lines:
+                    c['headers'].append([name, ln])
+            else:
+                c['headers'].append([name, v])
+    rng.shuffle(c['headers'])      # also permutes the lines of a split field: the expectation follows the order sent
     return finish_case(c, rng)
+
+
+def split_lines(v, rng=None, every=False):
+    """cut a list value at commas outside DQUOTEs into field lines; the cut comma is dropped, nothing else."""
+    lines, cur, inq = [], '', False
+    for ch in v:
+        if ch == '"':
+            inq = not inq
+        if ch == ',' and not inq and (every or rng.random() < 0.6):
+            lines.append(cur)
+            cur = ''
+        else:
+            cur += ch
+    lines.append(cur)
+    return lines
 
 
 # ---- bounded-exhaustive atomic cases (index-sharded)
@@ -950,9 +989,16 @@ def exhaustive_values(tier):
     for a, b, c in itertools.product(atoms if deep else atoms[:8], repeat=3):
         for s in (seps if deep else [', ']):
             yield ('If-None-Match',), a + s + b + s + c, None
+    # the same entity-tag lists delivered on several field lines (RFC 9110 5.3), also unevenly filled lines
+    for a, b in itertools.product(atoms, repeat=2):
+        yield ('If-Match', 'If-None-Match'), None, {'lines': [a, b]}
+    for n3, (a, b, c) in enumerate(itertools.product(atoms if deep else atoms[:8], repeat=3)):
+        if deep or n3 % 4 == 0:
+            yield ('If-None-Match',), None, {'lines': [a, b, c]}
+            yield ('If-Match',), None, {'lines': [[a + ', ' + b, c], [a, b + ',' + c]][n3 % 2]}
     # dates: boundary enumeration x three formats
     years = [1, 999, 1000, 1582, 1900, 1969, 1970, 1999, 2000, 2024, 2038, 2068, 2069, 2100, 9999] if deep else \
-        [1, 1999, 2000, 9999]
+        [1, 2000, 9999]
     times = ['00:00:00', '23:59:59', '12:30:60', '24:00:00', '07:08:09'] if deep else ['00:00:00', '23:59:59', '12:30:60']
     for y in years:
         for mo in range(1, 13):
@@ -980,6 +1026,11 @@ def exhaustive_values(tier):
     for a in hop2[::3]:
         for b in fp:
             yield ('Forwarded',), a + ', ' + b, None
+            yield ('Forwarded',), None, {'lines': [a, b]}
+    for i in range(12):
+        xs = [IPV4S[i % 4], ['10.1.2.3', IPV6S[i % 5]][i % 2], IPV4S[(i + 1) % 4]]
+        yield ('X-Forwarded-For',), None, {'lines': xs[:2 + i % 2]}
+        yield ('X-Forwarded-For',), None, {'lines': [xs[0] + ', ' + xs[1], xs[2]]}
     # Accept
     ar = ['application/json', 'application/*', '*/*', 'text/html', 'application/json;q=0', 'application/*;q=0',
           '*/*;q=0', 'application/json;q=0.5', '*/*;q=0.1', 'application/xml;q=1.000', 'application/msgpack',
@@ -988,6 +1039,18 @@ def exhaustive_values(tier):
         yield ('Accept',), a, None
     for a, b in itertools.product(ar, repeat=2):
         yield ('Accept',), a + ', ' + b, None
+    for a, b in itertools.product(ar if deep else ar[:11], repeat=2):
+        yield ('Accept',), None, {'lines': [a, b]}
+    # requests without a Host header (HTTP/1.0 clients): every kind of server address x port x scheme, alone and with
+    # a Forwarded header that falls back on the own netloc
+    for sname in ['falconframework.org', 'srv', '10.0.0.5', '::1', '2001:db8::8', '::ffff:192.0.2.1']:
+        for br in ((False, True) if ':' in sname else (False,)):
+            for sport in (80, 443, 8000):
+                for scheme in ('http', 'https'):
+                    for ws in (False, True):
+                        ex = {'scheme': scheme, 'server': [sname, sport], 'wsgi_server_bracketed': br, 'asgi_ws': ws}
+                        yield (), '', ex
+                        yield ('Forwarded',), 'for=192.0.2.60;proto=https', ex
     if deep:
         for a, b, c in itertools.product(ar[:11], repeat=3):
             yield ('Accept',), ','.join((a, b, c)), None
@@ -1020,9 +1083,15 @@ def atomic_case(names, value, extra, idx):
     c['root_path'] = ['', '/api'][(idx // 2) % 2]
     c['path'] = ['/', '/items/7'][(idx // 3) % 2]
     c['query'] = ['', 'a=1&b=2'][(idx // 5) % 2]
+    lines = None
     if extra:
+        extra = dict(extra)
+        lines = extra.pop('lines', None)
         c.update(extra)
-    c['headers'] = [[n, value] for n in names]
+    if lines is not None:
+        c['headers'] = [[n, ln] for n in names for ln in lines]      # one field on several field lines
+    else:
+        c['headers'] = [[n, value] for n in names]
     if names and names[0] in ('Date', 'If-Modified-Since', 'If-Unmodified-Since'):
         c['tz'] = TZS[idx % len(TZS)]
     return finish_case(c, r)
@@ -1033,7 +1102,7 @@ def atomic_case(names, value, extra, idx):
 # =====================================================================================
 
 def nontrivial(case):
-    return any(v for _, v in case['headers'])
+    return any(v for _, v in case['headers']) or ':' in case['server'][0]
 
 
 class Runner:
@@ -1057,11 +1126,12 @@ class Runner:
                     rec.count('proposed_known.' + known)
                     continue
                 self.reported_known.add(known)
-            c = case
+            w = {'case': case, 'finding': {k: v for k, v in f.items() if k != 'known'}}
             if known is None and self.shrunk < 3 and len(case['headers']) > 1:
+                # the finding is decided and classified on the request exactly as generated ('case', which is
+                # what --replay re-runs); the greedily reduced request is only a reading aid
                 self.shrunk += 1
-                c = shrink(case, f)
-            w = {'case': c, 'finding': {k: v for k, v in f.items() if k != 'known'}}
+                w['shrunk_case'] = shrink(case, f)
             if known:
                 w['proposed_known_key'] = known
             rec.violation(f['kind'] + ':' + family(f['accessor']), w, known_key=known)
@@ -1083,7 +1153,8 @@ class Runner:
             self.merge(C2)
             findings += f2
         rec.case(repr((case['scheme'], case['server'], case['client'], case['root_path'], case['path'], case['query'],
-                       case['headers'], case.get('asgi_no_server'), case.get('asgi_ws'), case.get('tz'))) if nontrivial(case) else None)
+                       case['headers'], case.get('asgi_no_server'), case.get('asgi_ws'), case.get('tz'),
+                       case.get('wsgi_server_bracketed'))) if nontrivial(case) else None)
         self.n += 1
         if findings:
             self.report(case, findings)
@@ -1170,6 +1241,9 @@ BRANCH_FLOORS = [
     'fwd.valid', 'fwd.multi_hop', 'fwd.ext_param', 'fwd.quoted_pair', 'fwd.ipv6_port', 'fwd.ipv6', 'fwd.obfnode',
     'fwd.obfport', 'fwd.invalid',
     'host.reg', 'host.ipv4', 'host.ipv6', 'host.port', 'host.noport', 'host.empty_port', 'host.invalid', 'host.absent',
+    'host.absent_ipv6_bracketed', 'host.absent_ipv6_bare_default_port', 'host.absent_ipv6_bare_other_port',
+    'multiline.if-match', 'multiline.if-none-match', 'multiline.accept', 'multiline.forwarded',
+    'multiline.x-forwarded-for',
     'host.default_port_http', 'host.default_port_https', 'host.default_port_ws', 'host.default_port_wss',
     'ws.host_header', 'ws.no_host_header', 'netloc.server_default_port', 'netloc.server_other_port',
     'subdomain.some', 'subdomain.none', 'uri.composed', 'uri.with_query', 'uri.with_root_path',
@@ -1189,7 +1263,7 @@ def run(rec):
                 'spaces per header family (Range bodies over 8 pieces, Host forms x port forms, entity-tag atom '
                 'sequences, boundary dates x 3 formats, cookie-pair sequences, Forwarded pair/hop products, Accept '
                 'range products) and the presence table of the forwarded family, sharded by index. Part 2: random '
-                'requests with ABNF-generated and mutated values. non-trivial = at least one non-empty header; '
+                'requests with ABNF-generated and mutated values. non-trivial = at least one non-empty header or an IPv6 server address; '
                 'distinct by full abstract request')
     rec.assumptions = [
         'reference readers in vlib/models/c09_headers.py are correct readings of RFC 9110/6265/7239/3986',
@@ -1222,6 +1296,8 @@ def run(rec):
         if idx % rec.nshards != rec.shard:
             continue
         case = atomic_case(names, value, extra, idx)
+        if not deep and (idx // rec.nshards) % 2 == 1:
+            case['light'] = True      # quick tier: every other atomic request skips the fresh-object reads
         R.run_case(case, do_e2e=(idx // rec.nshards) % 23 == 0)
         if idx % 4001 == 0:
             rec.sample({'headers': case['headers'], 'scheme': case['scheme']})
